@@ -39,8 +39,11 @@ def shape_of(kinds):
     return "interleaved"
 
 
+STEP_LETTER = {"Call": "C", "DomainResp": "R", "SignResp": "S"}
+
+
 def schedule_of(s):
-    return "".join(("C%d" if st["ev"] == "Call" else "R%d") % st["rid"] for st in s["steps"][1:])
+    return "".join("%s%d" % (STEP_LETTER[st["ev"]], st["rid"]) for st in s["steps"][1:])
 
 
 def sig_of(s):
@@ -50,7 +53,8 @@ def sig_of(s):
         return {"requests": 1, "op": c["op"], "fail": c["fail"],
                 "family": "dirk" if c["kinds"][0].startswith("prot") else "wallet", "shape": shape_of(c["kinds"])}
     return {"requests": len(cs), "ops": [c["op"] for c in cs], "epochs": [c["want"]["epoch"] for c in cs],
-            "fails": [c["fail"] for c in cs], "fork": fork_of(s), "schedule": schedule_of(s)}
+            "kinds": [c["kinds"] for c in cs], "fails": [c["fail"] for c in cs], "fork": fork_of(s),
+            "schedule": schedule_of(s)}
 
 
 def spans_fork(s):
@@ -72,6 +76,21 @@ def overlapped(rows):
     return False
 
 
+def signing_overlapped(rows):
+    """a request was started, or made a signer call, while another request was between its first signer call and
+    its return - on the real service, as recorded"""
+    signing = set()
+    for r in rows:
+        ev, rid = r.get("ev"), r.get("rid")
+        if ev in ("Call", "Sign") and any(q != rid for q in signing):
+            return True
+        if ev == "Sign":
+            signing.add(rid)
+        elif ev == "Return":
+            signing.discard(rid)
+    return False
+
+
 def nontrivial(s, rows):
     # the antecedent of the property: signatures were returned (and checked with BLS)
     rets = [r for r in rows if r.get("ev") == "Return" and r.get("ok") and any(r.get("verifies", []))]
@@ -79,8 +98,9 @@ def nontrivial(s, rows):
         return False
     cs = calls_of(s)
     if len(cs) > 1:
-        # the history claim has content when domains differ between the requests: both sides of the fork
-        return spans_fork(s) and len(rets) >= 2
+        # the history claim has content when domains differ between the requests (both sides of the fork) or
+        # when requests really overlapped in the signing phase
+        return len(rets) >= 2 and (spans_fork(s) or signing_overlapped(rows))
     c = cs[0]
     if len(c["kinds"]) == 1:
         return True
@@ -110,28 +130,43 @@ def single_histories(tier, rnd):
     return out
 
 
-def overlap_histories(tier):
+N_SIGN_QUICK = 700
+
+
+def overlap_histories(tier, rnd):
     """histories of three overlapping requests: every schedule x every assignment of two single-account
-    operations of different domain types to the last epoch of the old fork / the first of the new one;
-    plus TLC-simulated histories over all operations, account kinds, batches and failure modes"""
-    n_rich, n_fail = (120, 40) if tier == "quick" else (1500, 500)
-    with concurrent.futures.ThreadPoolExecutor(max_workers=3) as pool:
+    operations of different domain types to the last epoch of the old fork / the first of the new one (held at
+    the domain provider); every schedule of two batch requests held at the SIGNER (every batch of length <= 2 of
+    each account family x {slot_selection, sync_root}, one on each side of the fork (thorough: and attestations,
+    which has its own split code, each operation on both sides of the fork); quick: a seeded sample of them);
+    plus TLC-simulated histories over all operations, account kinds, batches, failure modes and gate modes"""
+    n_rich, n_fail = (160, 60) if tier == "quick" else (2000, 700)
+    with concurrent.futures.ThreadPoolExecutor(max_workers=4) as pool:
         core = pool.submit(vf.tlc_scenarios, PID, "Scen_SignerHist", "Scen_SignerHist.cfg", exhaustive=True,
                            name="scen-hist")
+        sign = pool.submit(vf.tlc_scenarios, PID, "Scen_SignerHist",
+                           "Scen_SignerHist_sign.cfg" if tier == "quick" else "Scen_SignerHist_sign_big.cfg",
+                           exhaustive=True, name="scen-hist-sign", timeout=900)
         rich = pool.submit(vf.tlc_scenarios, PID, "Scen_SignerHist", "Scen_SignerHist_rich.cfg", num=n_rich,
                            depth=100, name="scen-hist-rich", timeout=900)
         fail = pool.submit(vf.tlc_scenarios, PID, "Scen_SignerHist", "Scen_SignerHist_fail.cfg", num=n_fail,
                            depth=100, name="scen-hist-fail", timeout=900)
-        return core.result(), rich.result()[:n_rich] + fail.result()[:n_fail]
+        signs = sign.result()
+        if tier == "quick":
+            rnd.shuffle(signs)
+            signs = signs[:N_SIGN_QUICK]
+        return core.result(), signs, rich.result()[:n_rich] + fail.result()[:n_fail]
 
 
 def model_checks(tier):
     """(exhaustive runs that must pass, self-check that must fail)"""
     runs = [("MC_Signer", "MC_Signer.cfg", 900), ("MC_Signer", "MC_Signer_hist.cfg", 900),
-            ("SignerCache", "MC_SignerCache_checked.cfg", 900)]
+            ("MC_Signer", "MC_Signer_sign.cfg", 900),
+            ("SignerCache", "MC_SignerCache_checked.cfg", 900), ("SignerPool", "MC_SignerPool_late.cfg", 900)]
     if tier == "thorough":
         # the long one first: it is the critical path of the thorough tier
-        runs = [("MC_Signer", "MC_Signer_big.cfg", 1800), ("MC_Signer", "MC_Signer_hist_big.cfg", 1800)] + runs
+        runs = [("MC_Signer", "MC_Signer_big.cfg", 1800), ("MC_Signer", "MC_Signer_hist_big.cfg", 1800),
+                ("MC_Signer", "MC_Signer_sign_big.cfg", 1800)] + runs
     return runs
 
 
@@ -140,15 +175,29 @@ def run_mc(module, cfg, timeout):
     return vf.tlc_exhaustive(PID, module, cfg, timeout=timeout, workers=8 if big else 4, coverage=big)
 
 
+def must_violate(module, cfg, allowed, what):
+    r = vf.tlc(PID, "self-" + cfg.replace(".cfg", ""), module, cfg, workers=1, timeout=600)
+    if r["kind"] != "invariant" or r["violated"] not in allowed:
+        raise vf.Broken("model self-check failed: %s does not violate %s (%s %s)\n%s" % (
+            what, " / ".join(allowed), r["kind"], r["violated"], r["out"][-2000:]))
+    vf.log("model self-check: %s violates %s (as it must)" % (what, r["violated"]))
+
+
 def run_selfcheck():
-    # the model must be able to SEE the class: the per-epoch cache whose store does not re-check the epoch
-    # (seeded/C06-domain-cache-straddles-fork) violates C06 over histories
-    r = vf.tlc(PID, "mc-cache-unchecked", "SignerCache", "MC_SignerCache_unchecked.cfg", workers=1, timeout=600)
-    if r["kind"] != "invariant" or r["violated"] not in ("Memoryless", "SigCorrect"):
-        raise vf.Broken("model self-check failed: the unchecked domain cache does not violate Memoryless / SigCorrect "
-                        "(%s %s)\n%s" % (r["kind"], r["violated"], r["out"][-2000:]))
-    vf.log("model self-check: a domain cache whose store does not re-check the epoch violates %s over histories "
-           "(as it must)" % r["violated"])
+    # the model must be able to SEE the classes:
+    # the per-epoch cache whose store does not re-check the epoch (seeded/C06-domain-cache-straddles-fork)
+    must_violate("SignerCache", "MC_SignerCache_unchecked.cfg", ("Memoryless", "SigCorrect"),
+                 "a domain cache whose store does not re-check the epoch")
+    # pooled working storage of the split, put back before the request is done with it
+    # (seeded/C06-pooled-account-groups): another request's accounts are handed to the signer ...
+    must_violate("SignerPool", "MC_SignerPool_early.cfg", ("HandedOwn",),
+                 "pooled account groups put back while the request still signs")
+    # ... and their signatures reach the reply
+    must_violate("SignerPool", "MC_SignerPool_early_sig.cfg", ("SigCorrect",),
+                 "pooled account groups put back while the request still signs")
+    # and the passing control model (MC_SignerPool_late.cfg) is not empty: two requests do complete there
+    must_violate("SignerPool", "MC_SignerPool_late_reach.cfg", ("NeverTwoDone",),
+                 "(reachability witness) the pool with the right lifetime completing two requests")
 
 
 def run(tier):
@@ -167,21 +216,26 @@ def run(tier):
         "the domain provider is a fake chain with one fork: the domain of (type, epoch) is a function of the type and "
         "of the fork version in force at the epoch, (type, genesis) is a third value; its replies are held back and "
         "released by the driver in the order of the TLC-generated schedule; accounts in a batch are distinct",
-        "histories: up to 3 requests per service instance, one fork per history; overlap is controlled at the domain "
-        "provider (the only place where the signer waits on the outside world before signing)",
+        "histories: up to 3 requests per service instance, one fork per history; overlap is controlled at the two "
+        "places where the signer waits on the outside world: the domain provider and the signer calls (account "
+        "wrappers); a signer may read what it was handed at any time during the call (the wrappers look at their "
+        "arguments on arrival and again when the call is let return, and sign what they see then)",
+        "the driver runs with GOMAXPROCS(1): a sync.Pool then hands an object put back by one request to the request "
+        "that asks next (per-P caches), so state carried through a pool shows deterministically",
     ]
-    with concurrent.futures.ThreadPoolExecutor(max_workers=2) as pool, \
+    with concurrent.futures.ThreadPoolExecutor(max_workers=3) as pool, \
             concurrent.futures.ThreadPoolExecutor(max_workers=1) as pool2:
         # the model-checking runs go on beside scenario generation and the driver
-        fut_hist = pool2.submit(overlap_histories, tier)
+        fut_hist = pool2.submit(overlap_histories, tier, random.Random(vf.seed() + 1))
         futs = [pool.submit(run_mc, m, c, t) for m, c, t in model_checks(tier)]
         futs_self = pool.submit(run_selfcheck)
         try:
             singles = single_histories(tier, rnd)
-            core, rich = fut_hist.result()
-            sc = [{"sc": i + 1, "steps": h} for i, h in enumerate(singles + core + rich)]
-            vf.log("%d histories: %d of one request, %d exhaustive three-request schedules, %d simulated" % (
-                len(sc), len(singles), len(core), len(rich)))
+            core, signs, rich = fut_hist.result()
+            sc = [{"sc": i + 1, "steps": h} for i, h in enumerate(singles + core + signs + rich)]
+            vf.log("%d histories: %d of one request, %d exhaustive three-request schedules around the domain lookup, "
+                   "%d two-request schedules inside the signing phase, %d simulated" % (
+                       len(sc), len(singles), len(core), len(signs), len(rich)))
             vf.conformance(v, sc, driver, "Trace_Signer", "Trace_Signer.cfg", sig_of, nontrivial, chunk=1500,
                            tlc_timeout=1500)
         finally:
@@ -194,10 +248,15 @@ def run(tier):
                           "a seeded sample of the failure modes, one request per fresh service, chain forking at or "
                           "right after the duty's epoch; (b) every schedule (order of request starts and domain-provider "
                           "replies) of three single-account requests x every assignment of {attestation, randao} and "
-                          "{last epoch before the fork, fork epoch}; (c) TLC-simulated three-request histories over all "
-                          "operations, kinds, batches, failure modes.  Non-trivial = signatures were returned and "
-                          "BLS-verified and: one request - for batches both groups of the split are populated; several "
-                          "requests - the history has requests on both sides of the fork; distinct by history")
+                          "{last epoch before the fork, fork epoch}; (c) every schedule (order of request starts and "
+                          "signer-call returns) of two batch requests {slot_selection in the fork epoch, sync_root before "
+                          "it} (thorough: {attestations, slot_selection, sync_root} x both sides of the fork) x every "
+                          "batch of length <= 2 of each account family, held inside the signer calls (quick: a seeded "
+                          "sample of %d of the 3312; thorough: all 29808); (d) TLC-simulated three-request histories over "
+                          "all operations, kinds, batches, failure modes, gate modes.  Non-trivial = signatures were "
+                          "returned and BLS-verified and: one request - for batches both groups of the split are "
+                          "populated; several requests - the history has requests on both sides of the fork or two "
+                          "requests overlapped in the signing phase; distinct by history" % N_SIGN_QUICK)
     return v.finish()
 
 
